@@ -103,6 +103,91 @@ def ll_sxp(xs, mu, lam, tau):
         return -math.inf
 
 
+def gammp(a, x):
+    """regularised lower incomplete gamma P(a,x) (series / continued fraction)"""
+    if x <= 0 or a <= 0: return 0.0
+    gln = math.lgamma(a)
+    if x < a + 1.0:
+        ap, term = a, 1.0 / a; tot = term
+        for _ in range(1000):
+            ap += 1.0; term *= x / ap; tot += term
+            if abs(term) < abs(tot) * 1e-16: break
+        return min(1.0, tot * math.exp(-x + a * math.log(x) - gln))
+    tiny = 1e-300
+    b = x + 1.0 - a; c = 1.0 / tiny; d = 1.0 / b; h = d
+    for i in range(1, 1000):
+        an = -i * (i - a); b += 2.0
+        d = an * d + b
+        if abs(d) < tiny: d = tiny
+        c = b + an / c
+        if abs(c) < tiny: c = tiny
+        d = 1.0 / d; de = d * c; h *= de
+        if abs(de - 1.0) < 1e-16: break
+    try:
+        return max(0.0, 1.0 - math.exp(-x + a * math.log(x) - gln) * h)
+    except OverflowError:
+        return 1.0
+
+
+def cdf_weibull(x, mu, lam, tau):
+    if x <= mu: return 0.0
+    try: return -math.expm1(-((lam * (x - mu)) ** tau))
+    except OverflowError: return 1.0
+
+
+def cdf_sxp(x, mu, lam, tau):
+    if x <= mu: return 0.0
+    try: return gammp(1.0 / tau, (lam * (x - mu)) ** tau)
+    except OverflowError: return 1.0
+
+
+def ll_binned(cdf, bins, mu, lam, tau):
+    """bins = [(count, lower, upper)]; Σ count·log(F(upper) - F(max(lower, mu)))"""
+    if not (lam > 0 and tau > 0): return -math.inf
+    tot = []
+    for c, a, b in bins:
+        d = cdf(b, mu, lam, tau) - cdf(max(a, mu), mu, lam, tau)
+        if d <= 0: return -math.inf
+        tot.append(c * math.log(d))
+    return math.fsum(tot)
+
+
+def ll_gamma_weighted(pts, mu, lam, tau):
+    """pts = [(count, value)]: gamma log-likelihood of weighted points"""
+    if not (lam > 0 and tau > 0) or any(v <= mu for _, v in pts): return -math.inf
+    n = sum(c for c, _ in pts)
+    return n * (tau * math.log(lam) - math.lgamma(tau)) + (tau - 1) * math.fsum(c * math.log(v - mu) for c, v in pts) - lam * math.fsum(c * (v - mu) for c, v in pts)
+
+
+def ll_gev(xs, mu, lam, alpha):
+    if not lam > 0: return -math.inf
+    tot = []
+    for x in xs:
+        y = lam * (x - mu)
+        if abs(y * alpha) < 1e-12:
+            tot.append(math.log(lam) - y - safe_exp(-y)); continue
+        ya1 = 1.0 + alpha * y
+        if ya1 <= 0: return -math.inf
+        l = math.log(ya1)
+        tot.append(math.log(lam) - (1.0 + 1.0 / alpha) * l - safe_exp(-l / alpha))
+    return math.fsum(tot)
+
+
+def pattern_search(ll, p0, unit, max_evals=260):
+    """coordinate pattern search around p0 (steps 10% .. 0.01% of `unit`): best logL found nearby"""
+    base = ll(*p0)
+    best, bp, step, evals = base, list(p0), 0.1, 0
+    while step > 1e-4 and evals < max_evals:
+        moved = False
+        for i in range(len(p0)):
+            for sg in (1, -1):
+                q = list(bp); q[i] = q[i] + sg * step * unit[i]
+                v = ll(*q); evals += 1
+                if v > best: best, bp, moved = v, q, True
+        if not moved: step /= 2
+    return base, best, bp
+
+
 # ------------------------------------------------------------------------------------------------
 # quantile grids of the laws
 # ------------------------------------------------------------------------------------------------
@@ -126,6 +211,7 @@ class C11(Prop):
         "score2bin_interval", "bins_partition", "add_never_faults", "add_counts_once", "histogram_accounts", "bookkeeping_true",
         "sorted_flag_sound", "tail_query_agrees", "rank_query_agrees", "tailmass_query_agrees",
         "settail_agrees_with_raw_data", "declare_censoring_agrees", "lognormal_fit_closed_form", "lognormal_mu_is_maximiser",
+        "gumbel_profile_concave", "gumbel_complete_fit_near_optimal", "gumbel_censored_fit_near_optimal",
         "exp_fit_closed_form", "exp_fit_is_maximiser", "gumbel_mu_is_maximiser", "lawless_is_derivative", "gumbel_complete_fit_stationary",
         "gumbel_censored_fit_stationary", "gumbel_loc_fits_closed_form", "gumbel_fits_terminate")]
     claimed = True
@@ -275,7 +361,7 @@ class C11(Prop):
             elif k == "gumbelloc": ops.append("fit kind=gumbelloc a=%s" % d((lam0 * rng.choice([0.5, 1.0, 1.0, 2.0]) if lam0 else rng.choice([0.1, 0.693, 1.0, 3.0])) if rng else 0.693))
             elif k == "gumbeltrunc": ops.append("fit kind=gumbeltrunc a=%s" % d(lo))
             elif k == "gamma": ops.append("fit kind=gamma a=%s" % d(lo - 0.5 * (max(xs) - lo) / max(2, len(xs)) if xs else 0.0))
-            elif k in ("weibull", "sxp"): ops.append("fit kind=%s" % k)
+            elif k in ("weibull", "sxp", "gev"): ops.append("fit kind=%s" % k)
         return ops
 
     def hist_case(self, rng, idx, tier):
@@ -407,11 +493,13 @@ class C11(Prop):
         sizes = [2, 3, 5, 10, 30, 100, 300, 1000]
         specs, plans = [], []
         for i in range(count):
-            kind = rng.choice(["exp", "gumbel", "weibull", "lognormal", "gamma", "sxp"])
+            kind = rng.choice(["exp", "gumbel", "weibull", "lognormal", "gamma", "sxp", "gev"])
             n = rng.choice(sizes)
             if (ctx.tier != "quick" and rng.random() < 0.05) or (ctx.tier == "quick" and i == 0): n = 10000
+            if ctx.tier != "quick" and i in (1, 2): n = 100000
             mu, lam, tau = rng.choice(mus), rng.choice(lams), rng.choice(taus)
             if kind == "lognormal": mu, lam = rng.choice([0.0, 1.0, -2.0, 5.0]), rng.choice([0.1, 0.5, 1.0, 2.0])
+            if kind == "gev": tau = rng.choice([-0.2, 0.1, 0.3])       # shape alpha
             src = "grid" if (kind in ("exp", "gumbel", "weibull", "lognormal") and rng.random() < 0.5) else "sample"
             if src == "sample":
                 specs.append((kind, n, rng.randrange(1, 2**31), mu, lam, tau))
@@ -448,7 +536,7 @@ class C11(Prop):
             ops = ["data xs=" + ",".join(d(x) for x in xs)]
             kinds = {"exp": ["exp", "expscale", "gumbel", "weibull", "sxp"], "gumbel": ["gumbel", "gumbelloc", "gumbelcens", "gumbelcensloc", "gumbeltrunc", "exp"],
                      "weibull": ["weibull", "exp", "sxp", "gamma"], "lognormal": ["lognormal", "exp", "gumbel"], "gamma": ["gamma", "exp", "weibull"],
-                     "sxp": ["sxp", "exp", "weibull"]}[kind]
+                     "sxp": ["sxp", "exp", "weibull"], "gev": ["gev", "gumbel"]}[kind]
             ops += [o for o in self.fit_ops(xs, rng, kinds, meta["lambda"] if kind == "gumbel" else None) if "gumbelcens" not in o and "gumbeltrunc" not in o
                     and not (n > 1000 and kv(o).get("kind") in CG_KINDS)]
             cases.append({"name": "fit%d-%s-%s-n%d-%s" % (i, kind, src, n, meta["mod"]), "ops": ops, "sticky": 1, "meta": meta})
@@ -477,13 +565,49 @@ class C11(Prop):
             cases.append({"name": "fit-degenerate-%d" % len(cases), "ops": ops, "sticky": 1, "meta": {"law": "none", "mod": "degenerate"}})
         return cases
 
+    def binned_cases(self, ctx, count):
+        """a data set of a known law collected into a histogram, then the binned fits"""
+        rng = ctx.rng; d = dbits
+        specs, plans = [], []
+        for i in range(count):
+            law = rng.choice(["exp", "weibull", "gamma", "sxp"])
+            n = rng.choice([300, 1000, 3000])
+            mu, lam = rng.choice([0.0, -20.0, 5.0]), rng.choice([0.05, 0.693, 3.0])
+            tau = rng.choice([0.7, 1.0, 1.5, 2.5])
+            src = "grid" if law in ("exp", "weibull") and rng.random() < 0.5 else "sample"
+            if src == "sample": specs.append((law, n, rng.randrange(1, 2**31), mu, lam, tau))
+            plans.append((law, n, mu, lam, tau, src))
+        samples = self.sample_sets(ctx, specs) if specs else []
+        si, out = 0, []
+        for i, (law, n, mu, lam, tau, src) in enumerate(plans):
+            if src == "grid": xs = grid(law, n, mu, lam, tau)
+            else:
+                xs = samples[si]; si += 1
+                if len(xs) != n: continue
+            rng.shuffle(xs)
+            w = rng.choice([0.05, 0.2, 0.5]) / lam
+            lo, hi = min(xs), max(xs)
+            bmin = math.floor(lo / w) * w - rng.choice([0, 1, 3]) * w
+            bmax = bmin + w * rng.choice([5, 20, int((hi - bmin) / w) + 2])
+            ops = ["hnew full=%d bmin=%s bmax=%s w=%s" % (rng.choice([0, 1]), d(bmin), d(bmax), d(w))]
+            for k in range(0, n, 500): ops.append("hadd xs=" + ",".join(d(x) for x in xs[k:k + 500]))
+            if rng.random() < 0.3: ops.append("hround")
+            ops += ["hdump", "hexpfit", "hweifit", "hgamfit", "hsxpfit"]
+            if rng.random() < 0.5:
+                ops += ["hsettailmass p=" + d(rng.choice([0.1, 0.3, 0.5])), "hdump", "hexpfit"]
+            out.append({"name": "binned%d-%s-%s-n%d" % (i, law, src, n), "ops": ops, "sticky": 1, "exact": False,
+                        "meta": {"law": law, "mu": mu, "lambda": lam, "tau": tau, "src": src, "mod": "none", "binned": True}})
+        return out
+
     def cases(self, ctx):
         rng = ctx.rng
         nh = 300 if ctx.tier == "quick" else 3000
         nf = 120 if ctx.tier == "quick" else 1200
         out = [self.hist_case(rng, i, ctx.tier) for i in range(nh)]
         out += self.fit_cases(ctx, nf)
-        self._dist = {"hist_cases": nh, "fit_cases": len(out) - nh}
+        nfit = len(out) - nh
+        out += self.binned_cases(ctx, 30 if ctx.tier == "quick" else 300)
+        self._dist = {"hist_cases": nh, "fit_cases": nfit, "binned_fit_cases": len(out) - nh - nfit}
         return out
 
     # ---------------------------------------------------------------------------------------------
@@ -590,8 +714,64 @@ class C11(Prop):
                 if l.startswith("ok"): done = True
             elif name == "hround":
                 pass
+            elif name in ("hexpfit", "hweifit", "hgamfit", "hsxpfit") and case.get("meta", {}).get("binned") and last_dump:
+                f = self.check_binned_fit(name, l, last_dump, case["meta"])
+                if f: return F(f)
         # cross-op checks that need the dump following a declaration
         return self.check_declarations(ops, out, exact, vals)
+
+    def check_binned_fit(self, name, l, o, meta):
+        """binned fits on a histogram of a known law: documented status; location as documented; the returned (lambda, tau) is a local
+        maximum of the routine's objective (pattern search on an independent evaluation); parameters recovered on the law's own data"""
+        w = l.split()
+        st = w[0]
+        if st not in ("ok", "einval", "enohalt", "erange", "enoresult"): return "%s returned the undocumented status %s" % (name, st)
+        if st != "ok": return None
+        ps = [fbits(t) for t in w[1:]]
+        bmin, bw = fbits(o["bmin"]), fbits(o["w"])
+        obs = {}
+        if o["obs"] != "-":
+            for t in o["obs"].split(","):
+                i, c = t.split(":"); obs[int(i)] = int(c)
+        if len(obs) < 3: return None
+        cmin, imin, imax = int(o["cmin"]), int(o["imin"]), int(o["imax"])
+        n = sum(c for b, c in obs.items() if b >= cmin)
+        if o["ds"] == "complete":
+            mu_doc = (bw * imin + bmin) if o["rounded"] == "1" else fbits(o["xmin"])
+        else:
+            mu_doc = fbits(o["phi"])
+        if ps[0] != mu_doc: return "%s: mu=%r, documented location %r" % (name, ps[0], mu_doc)
+        if not all(math.isfinite(x) for x in ps): return None      # all data in one bin etc.: documented (lambda = inf)
+        mu = ps[0]
+        bins = [(c, bw * b + bmin, bw * (b + 1) + bmin) for b, c in sorted(obs.items()) if b >= cmin]
+        law_ok = meta.get("law") in {"hexpfit": ("exp",), "hweifit": ("weibull", "exp"), "hgamfit": ("gamma", "exp"), "hsxpfit": ("sxp", "exp")}[name]
+        cal = self.__dict__.setdefault("_calib", {})
+        if name == "hexpfit":
+            lam = ps[1]
+            # ML for binned exponential data of equal width: closed form; check against the binned likelihood
+            ll = lambda la: ll_binned(lambda x, m, a, t: (-math.expm1(-a * (x - m)) if x > m else 0.0), bins, mu, la, 1.0)
+            # (esl_exp_FitCompleteBinned is modelled exactly and compared by the differential run; its closed form treats the lowest
+            #  bin as starting at mu, so it is not the maximiser of the exact binned likelihood - only recovery is monitored here)
+            if not lam > 0: return None
+            if law_ok and o["ds"] == "complete" and abs(lam / meta["lambda"] - 1) > 0.25:
+                return "%s on %s data (lambda=%r) returned lambda=%r" % (name, meta["law"], meta["lambda"], lam)
+            return None
+        lam, tau = ps[1], ps[2]
+        if not (lam > 0 and tau > 0): return "%s returned eslOK with lambda=%r tau=%r" % (name, lam, tau)
+        if name == "hgamfit":
+            # the routine fits the gamma by ML to the bin midpoints of bins cmin+1..imax (its documented approximation)
+            pts = [(c, bw * b + bmin + 0.5 * bw) for b, c in sorted(obs.items()) if b > cmin]
+            if len(pts) < 3 or any(v <= mu for _, v in pts): return None
+            ll = lambda la, ta: ll_gamma_weighted(pts, mu, la, ta); rt = 1e-6
+        elif name == "hweifit":
+            ll = lambda la, ta: ll_binned(cdf_weibull, bins, mu, la, ta); rt = 1e-5
+        else:
+            ll = lambda la, ta: ll_binned(cdf_sxp, bins, mu, la, ta); rt = 2e-5
+        base, best, bp = pattern_search(ll, [lam, tau], [lam, tau])
+        if not math.isfinite(base): return None
+        ratio = (best - base) / (abs(base) + n); cal[name] = max(cal.get(name, 0.0), ratio)
+        if ratio > rt: return "%s (n=%d): objective logL(lambda=%r,tau=%r)=%r but nearby (%r,%r) gives %r" % (name, n, lam, tau, base, bp[0], bp[1], best)
+        return None
 
     def exact_bin(self, x, bmin, w):
         t = (Fraction(x) - bmin) / w
@@ -794,6 +974,16 @@ class C11(Prop):
                 mu2 = mu + fm * max(abs(mu), 1 / lam)
                 v = ll_gumbel(xs, mu2, lam, z, phi)
                 if v > base + slack(base): return "%s (lambda=%r): logL(mu=%r)=%r < logL(mu=%r)=%r" % (kind, lam, mu, base, mu2, v)
+        elif kind == "gev":
+            if n < 100 or meta.get("mod") != "none" or meta.get("law") != "gev": return None
+            mu, lam, alpha = ps
+            if not lam > 0: return "gev fit returned eslOK with lambda=%r" % lam
+            ll = lambda m, l, al: ll_gev(xs, m, l, al)
+            base, best, bp = pattern_search(ll, [mu, lam, alpha], [max(abs(mu), 1 / lam), lam, max(abs(alpha), 0.05)], 400)
+            if not math.isfinite(base): return None
+            ratio = (best - base) / (abs(base) + n)
+            cal = self.__dict__.setdefault("_calib", {}); cal["gev"] = max(cal.get("gev", 0.0), ratio)
+            if ratio > 5e-3: return "gev fit (n=%d): logL%r=%r but nearby %r has logL=%r" % (n, (mu, lam, alpha), base, tuple(bp), best)
         elif kind in ("gamma", "weibull", "sxp", "gumbeltrunc"):
             # optimiser results: the returned point satisfies the optimiser's stopping rule; checked here on the implementation's
             # output: location = smallest observation, and logL at the fit >= logL at +-5% of each optimised parameter (minus the
